@@ -135,7 +135,8 @@ CHECKS = {
         "sketch: per-row and all-row-pair contingency tests with fixed limits; documented bound on "
         "deterministic Zipf streams",
         "The column every key of a 65 792-key universe owns in each of 8 rows is read off the real "
-        "sketch at widths 16 and 48; every row must be balanced and ALL 28 row pairs must pass a "
+        "sketch at widths 16 and 48 (and a 12-byte-key universe at width 16); every row must be "
+        "balanced and ALL 28 row pairs must pass a "
         "contingency test for independence (limits < 1e-12 under the null, identical or bit-sliced "
         "seeding exceeds them by orders of magnitude); the other counter types and depths must use the "
         "same per-row functions; on three deterministic Zipf streams at most exp(-8) of the keys may "
@@ -214,7 +215,8 @@ CHECKS = {
         "with the class loader and the module-level load(); the loaded object must be of the same "
         "class with equal parameters/tables/answers, merge with the original like a copy, and evolve "
         "identically under every further event (log sketches: identical installed draws). The "
-        "count-min dispatch / rejection matrix is enumerated completely.",
+        "count-min dispatch / rejection matrix is enumerated completely. For shared_memory=True loads a "
+        "second handle is attached to the loaded sketch's block and must see the same state.",
         "Differential oracle (the original object is the reference). Grid- and depth-bounded.",
         "DESIGN.md 4 C10",
     ),
@@ -269,8 +271,9 @@ CHECKS = {
         "Every element of a stated finite domain of (function, key, seed) is evaluated on the jitted "
         "implementation and compared with an independent reference model anchored by the SMHasher "
         "verification constants; the byte-position-value sweep covers the whole sign-extension / tail "
-        "class exhaustively. Inputs outside the domain (longer keys) are covered only through the "
-        "block/tail structure argument.",
+        "class exhaustively, and slice views created inside jitted code (offsets 0..16, lengths 0..40, "
+        "buffers without NUL bytes) must hash like the equal bytes object. Inputs outside the domain "
+        "(longer keys) are covered only through the block/tail structure argument.",
         "Trusted: reference model M1 (vf/models/hashes.py), anchored by the three published SMHasher "
         "verification values; CPython/numba as installed.",
         "DESIGN.md 4 C11",
@@ -280,7 +283,8 @@ CHECKS = {
         "crash-point enumeration: every byte-offset truncation of every saved file through every loader",
         "Every strict prefix (every byte offset) of the file written by save(), for all five classes, is "
         "fed to the class loader and the module-level load(); each must raise, and the complete file "
-        "must load to the saved sketch. Complete for the enumerated files; shapes are a small grid.",
+        "must load to the saved sketch; each subject is repeated with save() onto a path that already "
+        "holds a longer saved file. Complete for the enumerated files; shapes are a small grid.",
         "Truncation = clean prefix. Shapes/contents are a fixed small grid (seed perturbs widths).",
         "DESIGN.md 4 C20",
     ),
